@@ -81,7 +81,7 @@ func (t *Trie) mergeExtension(prefix []byte, sub Node) (Node, error) {
 	switch sn := sub.(type) {
 	case *ExtensionNode:
 		t.removeRef(sn.Hash(), sn.bytes)
-		sn.key = append(prefix, sn.key...)
+		sn.key = slices.Concat(prefix, sn.key) // prefix may be a subslice of a batch key or of another node's key
 		sn.invalidateCache()
 		t.addRef(sn.Hash(), sn.bytes)
 		return sn, nil
@@ -95,7 +95,7 @@ func (t *Trie) mergeExtension(prefix []byte, sub Node) (Node, error) {
 		return t.mergeExtension(prefix, n)
 	default:
 		if len(prefix) != 0 {
-			e := NewExtensionNode(prefix, sub)
+			e := NewExtensionNode(bytes.Clone(prefix), sub)
 			t.addRef(e.Hash(), e.bytes)
 			return e, nil
 		}
